@@ -59,6 +59,11 @@ def run_checks(tree, props, vdir, tier="quick", extra_env=None):
 def collect(wt, name, props):
     dst = os.path.join(VERIF, "seeded", name)
     os.makedirs(dst, exist_ok=True)
+    # new (untracked) non-test source files belong to the change
+    rc, unt = sh("git ls-files --others --exclude-standard", cwd=wt)
+    for f in unt.split():
+        if f.endswith(".go") and not f.endswith("_test.go"):
+            sh(f"git add -N -- {f}", cwd=wt)
     rc, diff = sh("git diff", cwd=wt)
     if not diff.strip():
         print("no diff in", wt)
